@@ -7,6 +7,8 @@ use crate::evidence::{Report, Tier};
 use crate::refdec::{predict, wrap, CmpStats, Mv};
 use crate::refhdr::{SHdr, SSize, StdHdr};
 use crate::syntax::*;
+use crate::util::*;
+use h263_rs::H263State;
 use rayon::prelude::*;
 use serde_json::json;
 use std::sync::atomic::{AtomicU64, Ordering};
@@ -794,6 +796,49 @@ pub fn run_c03(tier: Tier) -> Report {
         }
         r.run("mixed-header-histories", &cases);
         rep.add_nontrivial(cases.len() as u64);
+    }
+    // delivery in two pieces: a predicted / disposable picture (vectors, not-coded macroblocks) whose
+    // bytes arrive in two parts through one reader after its reference was decoded - the call that
+    // runs dry is repeated after the rest has been appended and must give the picture of one-piece
+    // delivery, at every byte position, in the three stream kinds
+    {
+        let mut work: Vec<(u8, Hdr, Hdr)> = vec![];
+        for &(w, h) in &[(16u16, 16u16), (32, 16), (33, 17)] {
+            for version in 0..2u8 {
+                for pt in [1u8, 2] {
+                    let mk = |ptype: u8, tr: u8| Hdr::S(SHdr { version, tr, size: SSize::auto(w, h), ptype, deblock: false, q: 6, pei: vec![] });
+                    work.push((1, mk(0, 1), mk(pt, 2)));
+                }
+            }
+            if w % 4 == 0 && h % 4 == 0 {
+                work.push((0, Hdr::Std(StdHdr::custom(w, h, false, 1, 6)), Hdr::Std(StdHdr::custom(w, h, true, 2, 6))));
+            }
+        }
+        let n_two = AtomicU64::new(0);
+        work.par_iter().for_each(|(opts, ih, ph)| {
+            let ipic = noise_intra(ih.clone(), seed ^ 0x2B);
+            let (mbw, mbh) = mb_grid(ph.dims().unwrap().0, ph.dims().unwrap().1);
+            let mbs: Vec<Mb> = (0..mbw * mbh).map(|i| if i % 3 == 2 { Mb::NotCoded } else { Mb::inter(((i % 5) as i8 - 2, (i % 3) as i8 - 1)) }).collect();
+            let ppic = Pic { hdr: ph.clone(), mbs };
+            let (bi, bp) = (encode_bytes(&ipic), encode_bytes(&ppic));
+            let mut st = H263State::new(options_from_bits(*opts));
+            if !decode_bytes(&mut st, &bi).is_ok() || !decode_bytes(&mut st, &bp).is_ok() {
+                rep.violation("C03/machinery-two-piece-base-picture", format!("{} does not decode in one piece", describe(&ppic)), json!({"kind": "machinery"}));
+                return;
+            }
+            let expect = [last_snap(&st)];
+            for split in 1..bp.len() {
+                n_two.fetch_add(1, Ordering::Relaxed);
+                if let Err(e) = deliver_in_two(*opts, &[&bi], &bp, split, &expect) {
+                    rep.violation("C03/delivery-in-two-pieces", format!("{}: {e}", describe(&ppic).chars().take(80).collect::<String>()), json!({"kind": "stream-two-pieces", "options": opts, "init": [crate::bits::hex(&bi)], "concatenated": crate::bits::hex(&bp), "pictures": 1, "split": split, "error": e}));
+                    break;
+                }
+            }
+        });
+        let n = n_two.load(Ordering::Relaxed);
+        rep.add_transitions(n);
+        rep.add_states(n);
+        rep.extra("two_piece_deliveries", json!(n));
     }
 
     r.finish();
